@@ -7,12 +7,15 @@ package main
 //               parse.DecodeURL, parse.DataURI) against their Lean models, and the Lean specification decoders
 //               (RFC 3986 percent-decoding, RFC 4648 base64) against independent hand-written Go readers.
 //   bytes     : exhaustive over every payload byte value 0..255 x shapes x encodings x media types x registries.
+//   lookalike : deterministic sweep of percent-encoded URIs whose payload contains data-URI syntax (nested data URIs).
 //   datauri   : generated data URIs (media types with parameters/case/whitespace, both encodings, partial and
 //               invalid escapes, corrupt base64, malformed forms, token soup) + /repo/tests/data-uri/corpus.
 //   mediatype : generated media type strings with quoted parameters + /repo/tests/mediatype/corpus.
 //   known     : replay of the open known findings (the fixed ones K-C18-4/5/6 are regression inputs of the stages above).
-// Every DataURI case runs the real minify.DataURI with four registries (none / identity stub / shrinking stub /
-// failing stub); the stub's answer is handed to the model as data.  Checked per case: (a) model = implementation
+// Every DataURI case runs the real minify.DataURI with five registries (none / identity stub / shrinking stub /
+// failing stub / nested stub that hands nested data: URIs back to minify.DataURI as sub-slices); the stub's answer is handed to
+// the model as data.  The argument is copied before the call (the implementation gets a private buffer, sometimes with spare
+// capacity) and the result is retained at return, so a result that aliases a clobbered argument is seen as what it is.  Checked per case: (a) model = implementation
 // (kind "diff"); (b) the property itself on the implementation's output, by the Lean specification
 // (`spec.c18.holds`) and by an independent Go reading (kind "fail"): the output is the input or reads per
 // RFC 2397 as an equivalent media type and the (sub-)minified payload, and it is not longer than a validly
@@ -30,6 +33,7 @@ import (
 	"sort"
 	"strings"
 	"time"
+	"unsafe"
 
 	"github.com/tdewolff/minify/v2"
 	"github.com/tdewolff/parse/v2"
@@ -179,13 +183,38 @@ func c18ValidlyEncoded(r c18Read) bool {
 
 // ---------- registries ----------
 
-var c18Regs = []string{"none", "identity", "shrink", "fail"}
+var c18Regs = []string{"none", "identity", "shrink", "fail", "nested"}
 
 type c18Call struct {
 	called int
 	in     []byte
 	out    []byte
 	ok     bool
+	depth  int
+	inner  int // nested DataURI calls made by the "nested" stub
+}
+
+// c18NestedRewrite is what an embedding minifier (svg/html/css) does with its payload: every nested `data:` URI — up to
+// the next quote, parenthesis, whitespace or the end — is handed to minify.DataURI *as a sub-slice of the payload*.
+func c18NestedRewrite(m *minify.M, b []byte, rec *c18Call) []byte {
+	var out []byte
+	for i := 0; i < len(b); {
+		k := bytes.Index(b[i:], []byte("data:"))
+		if k < 0 {
+			out = append(out, b[i:]...)
+			break
+		}
+		out = append(out, b[i:i+k]...)
+		j := i + k
+		e := j
+		for e < len(b) && b[e] != '"' && b[e] != '\'' && b[e] != ')' && b[e] != ' ' && b[e] != '\n' {
+			e++
+		}
+		rec.inner++
+		out = append(out, minify.DataURI(m, b[j:e:e])...)
+		i = e
+	}
+	return out
 }
 
 func c18Registry(kind string, rec *c18Call) *minify.M {
@@ -195,9 +224,19 @@ func c18Registry(kind string, rec *c18Call) *minify.M {
 	}
 	m.AddFuncRegexp(regexp.MustCompile(`(?s)^.*$`), func(_ *minify.M, w io.Writer, r io.Reader, _ map[string]string) error {
 		b, _ := io.ReadAll(r)
+		if rec.depth > 0 { // a nested data URI's own payload: left alone
+			w.Write(b)
+			return nil
+		}
 		rec.called++
 		rec.in = append([]byte{}, b...)
 		switch kind {
+		case "nested":
+			rec.depth++
+			o := c18NestedRewrite(m, b, rec)
+			rec.depth--
+			w.Write(o)
+			rec.out, rec.ok = append([]byte{}, o...), true
 		case "identity":
 			w.Write(b)
 			rec.out, rec.ok = append([]byte{}, b...), true
@@ -215,19 +254,34 @@ func c18Registry(kind string, rec *c18Call) *minify.M {
 }
 
 type c18Case struct {
-	u     []byte
-	reg   string
-	out   []byte
-	call  c18Call
-	crash string
+	u       []byte // the argument as it was before the call (never handed to the implementation)
+	reg     string
+	out     []byte
+	call    c18Call
+	crash   string
+	aliased bool // the returned slice shares memory with the argument
+	argMod  bool // the argument's bytes were modified by the call (allowed: DataURI documents no such promise)
 }
 
-func c18RunOne(u []byte, reg string) c18Case {
+// c18RunOne calls the real minify.DataURI on a private copy of u (with `spare` bytes of extra capacity, as a slice cut out
+// of a larger buffer has) and retains the result bytes as they are at return.
+func c18RunOne(u []byte, reg string, spare int) c18Case {
 	cs := c18Case{u: u, reg: reg}
-	in := append([]byte{}, u...)
+	buf := make([]byte, len(u), len(u)+spare)
+	copy(buf, u)
+	for k := len(u); k < cap(buf); k++ {
+		buf[:cap(buf)][k] = 0xAA
+	}
 	cs.crash = h.Safely(10*time.Second, func() {
 		m := c18Registry(reg, &cs.call)
-		cs.out = append([]byte{}, minify.DataURI(m, in)...)
+		res := minify.DataURI(m, buf)
+		cs.out = append([]byte{}, res...)
+		if len(res) > 0 && cap(buf) > 0 {
+			lo, hi := &buf[:cap(buf)][0], &buf[:cap(buf)][cap(buf)-1]
+			p := &res[0]
+			cs.aliased = uintptr(unsafe.Pointer(p)) >= uintptr(unsafe.Pointer(lo)) && uintptr(unsafe.Pointer(p)) <= uintptr(unsafe.Pointer(hi))
+		}
+		cs.argMod = !bytes.Equal(buf[:len(u)], u)
 	})
 	return cs
 }
@@ -300,8 +354,67 @@ func c18PctEncode(r *h.RNG, d []byte, mode int) []byte {
 	return out
 }
 
+// payload pieces that look like data URI syntax: a percent-encoded URI may contain them as ordinary data
+var c18Lookalike = []string{";base64", ";base64,", "data:", ",", "%25", ";charset=", ";charset=us-ascii", "data:image/png;base64,iVBORw0KGgo=",
+	"url(data:text/css;base64,QQ==)", "<image href=\"data:image/png;base64,iVBORw0KGgo=\"/>", "<svg xmlns=\"http://www.w3.org/2000/svg\">", "</svg>",
+	"data:,a%20b", "text/plain", "=", ";", "<", "\"", " ", "#", "a", "%3C", "%3c", "%22", "%20", "%23"}
+
+// c18GenLookalike: a percent-encoded (never base64-marked) URI whose payload is made of data-URI-like text; `raw` decides how
+// many of the bytes the table wants escaped are left raw, which steers the outcome between "original wins" (many raw),
+// "percent form" and "base64 form" (many escapes needed)
+func c18GenLookalike(r *h.RNG) []byte {
+	var sb bytes.Buffer
+	sb.WriteString("data:")
+	sb.WriteString(r.Pick([]string{"", "", "image/svg+xml", "text/html", "text/css;charset=utf-8", "image/svg+xml;charset=us-ascii", "text/plain"}))
+	sb.WriteByte(',')
+	n := 1 + r.Intn(7)
+	raw := r.Intn(101) // percent of escapable bytes left raw
+	for i := 0; i < n; i++ {
+		t := r.Pick(c18Lookalike)
+		if t[0] == '%' && len(t) == 3 { // already an escape
+			sb.WriteString(t)
+			continue
+		}
+		for k := 0; k < len(t); k++ {
+			c := t[k]
+			if (parse.DataURIEncodingTable[c] || c == '+') && r.Intn(100) >= raw {
+				fmt.Fprintf(&sb, "%%%02X", c)
+			} else {
+				sb.WriteByte(c)
+			}
+		}
+	}
+	if r.Chance(30) {
+		sb.WriteString(strings.Repeat(r.Pick([]string{"#", "\x00", "\xff", "<"}), 4+r.Intn(40))) // pushes towards base64
+	}
+	return sb.Bytes()
+}
+
+// c18LookalikeSweep: deterministic sweep of the three outcomes (original / percent / base64 wins) for percent-encoded URIs
+// whose payload contains data-URI-like text: template x k raw escapable bytes x one escape x its position x media type
+func c18LookalikeSweep() [][]byte {
+	var out [][]byte
+	tmpl := []string{";base64", "a;base64b", "data:image/png;base64,QUJD", "<svg><image href=\"data:image/png;base64,iVBORw0KGgo=\"/></svg>",
+		"x,y;charset=utf-8", "data:,", "url(data:;base64,QQ==)", "data:text/html,%253Cp%253E", ";charset=us-ascii,", "base64"}
+	escs := []string{"", "%23", "%3c", "%25", "%41", "%3B"}
+	for ti, t := range tmpl {
+		for k := 0; k <= 12; k++ {
+			pad := strings.Repeat([]string{"<", "\"", " "}[k%3], k)
+			for ei, e := range escs {
+				mt := []string{"", "text/html", "image/svg+xml;charset=utf-8"}[(ti+k+ei)%3]
+				out = append(out, []byte("data:"+mt+","+pad+e+t), []byte("data:"+mt+","+t+e+pad), []byte("data:"+mt+","+e+t+pad+e))
+			}
+		}
+		// escapes everywhere: the percent / base64 forms win
+		out = append(out, []byte("data:,"+pctAll([]byte(t))), []byte("data:,"+strings.Repeat("%23", 9)+t), []byte("data:text/html,"+strings.Repeat("%00%ff", 12)+t))
+	}
+	return out
+}
+
 func c18GenURI(r *h.RNG) []byte {
 	switch {
+	case r.Chance(12):
+		return c18GenLookalike(r)
 	case r.Chance(6): // token soup: exercises the scanner of parse.DataURI
 		toks := []string{"data:", ";", ",", "=", "base64", " ", "text/plain", "charset=us-ascii", "%", "+", "a", "QUJD", "\n", "%41", "\"", "x/y"}
 		n := r.Intn(9)
@@ -426,14 +539,28 @@ type c18Spec struct {
 var c18TrigIDs = []string{"K-C18-1", "K-C18-2", "K-C18-3"}
 
 // clauses of the property a known finding is allowed to break
-var c18TrigClauses = map[string]string{"K-C18-1": "payload,length", "K-C18-2": "mediatype", "K-C18-3": "mediatype,payload,unreadable,length"}
+var c18TrigClauses = map[string]string{"K-C18-1": "payload,length", "K-C18-2": "mediatype", "K-C18-3": "mediatype,payload,unreadable,length,shortest"}
+
+// c18Diff records a model/implementation disagreement, at most 6 per stage and kind: the report keeps 40 findings and the
+// failing inputs (kind "fail") must not be crowded out by the disagreements that usually accompany them
+var c18DiffCount = map[string]int{}
+
+func c18Diff(c *Ctx, f h.Finding) {
+	k := f.Stage + "|" + strings.SplitN(f.What, ":", 2)[0]
+	c18DiffCount[k]++
+	if c18DiffCount[k] <= 6 {
+		c.R.Add(f)
+	} else if c18DiffCount[k] == 7 {
+		c.R.Note("further disagreements of kind %q in stage %s are counted, not listed", strings.SplitN(f.What, ":", 2)[0], f.Stage)
+	}
+}
 
 func c18EvalURIs(c *Ctx, st *h.Stage, uris [][]byte) error {
 	// 1. run the implementation
 	var cases []c18Case
-	for _, u := range uris {
-		for _, reg := range c18Regs {
-			cases = append(cases, c18RunOne(u, reg))
+	for ui, u := range uris {
+		for ri, reg := range c18Regs {
+			cases = append(cases, c18RunOne(u, reg, []int{0, 0, 7, 64}[(ui+ri)%4]))
 		}
 	}
 	// 2. model + spec lines
@@ -491,26 +618,49 @@ func c18EvalURIs(c *Ctx, st *h.Stage, uris [][]byte) error {
 		default:
 			st.Tag("branch=percent-out")
 		}
+		if gr.ok && !gr.b64 && (bytes.Contains(gr.raw, []byte(";base64")) || bytes.Contains(gr.raw, []byte("data:"))) {
+			esc := "noescape"
+			if bytes.IndexByte(gr.raw, '%') >= 0 {
+				esc = "escapes"
+			}
+			switch {
+			case !changed:
+				st.Tag("lookalike-payload/" + esc + "=original-returned")
+			case bytes.Contains(cs.out[:bytes.IndexByte(cs.out, ',')+1], []byte(";base64,")):
+				st.Tag("lookalike-payload/" + esc + "=base64-out")
+			default:
+				st.Tag("lookalike-payload/" + esc + "=percent-out")
+			}
+		}
+		if cs.aliased {
+			st.Tag("result-aliases-argument")
+		}
+		if cs.argMod {
+			st.Tag("argument-modified")
+		}
+		if cs.call.inner > 0 {
+			st.Tag("nested-datauri-calls")
+		}
 		// (a) model = implementation
 		mb, ok, msg := h.DecodeReply(rep[2*i])
 		mf := h.DecodeListReply(mb)
 		if !ok || len(mf) != 4 {
-			c.R.Add(h.Finding{Stage: st.Name, Kind: "diff", What: "model.c18.datauri: model error " + msg, Input: h.Q(cs.u), Hex: h.Hex(cs.u), Config: cs.reg})
+			c18Diff(c, h.Finding{Stage: st.Name, Kind: "diff", What: "model.c18.datauri: model error " + msg, Input: h.Q(cs.u), Hex: h.Hex(cs.u), Config: cs.reg})
 		} else {
 			if !bytes.Equal(mf[0], cs.out) {
-				c.R.Add(h.Finding{Stage: st.Name, Kind: "diff", What: "model.c18.datauri", Input: h.Q(cs.u), Hex: h.Hex(cs.u), Config: cs.reg, Impl: h.Q(cs.out), Model: h.Q(mf[0])})
+				c18Diff(c, h.Finding{Stage: st.Name, Kind: "diff", What: "model.c18.datauri", Input: h.Q(cs.u), Hex: h.Hex(cs.u), Config: cs.reg, Impl: h.Q(cs.out), Model: h.Q(mf[0])})
 			}
 			if cs.reg != "none" {
 				parsed := string(mf[1]) == "1"
 				if parsed != (cs.call.called == 1) || (parsed && !bytes.Equal(mf[3], cs.call.in)) {
-					c.R.Add(h.Finding{Stage: st.Name, Kind: "diff", What: "sub-minifier call (called? with which data)", Input: h.Q(cs.u), Hex: h.Hex(cs.u), Config: cs.reg,
+					c18Diff(c, h.Finding{Stage: st.Name, Kind: "diff", What: "sub-minifier call (called? with which data)", Input: h.Q(cs.u), Hex: h.Hex(cs.u), Config: cs.reg,
 						Impl: fmt.Sprintf("called=%d data=%s", cs.call.called, h.Q(cs.call.in)), Model: fmt.Sprintf("parsed=%v data=%s", parsed, h.Q(mf[3]))})
 				}
 			}
 		}
 		// validation of the Lean specification reader against the independent Go reader
 		if sp.ok != gr.ok || (sp.ok && (sp.mt != gr.mt || !bytes.Equal(sp.data, gr.data) || sp.norm != c18Norm(gr.mt) || sp.valid != c18ValidlyEncoded(gr))) {
-			c.R.Add(h.Finding{Stage: st.Name, Kind: "diff", What: "Lean rfcParse/mtNorm differs from the independent Go reading of RFC 2397", Input: h.Q(cs.u), Hex: h.Hex(cs.u),
+			c18Diff(c, h.Finding{Stage: st.Name, Kind: "diff", What: "Lean rfcParse/mtNorm differs from the independent Go reading of RFC 2397", Input: h.Q(cs.u), Hex: h.Hex(cs.u),
 				Impl: fmt.Sprintf("go ok=%v mt=%q norm=%q data=%s", gr.ok, gr.mt, c18Norm(gr.mt), h.Q(gr.data)), Model: fmt.Sprintf("lean ok=%v mt=%q norm=%q data=%s", sp.ok, sp.mt, sp.norm, h.Q(sp.data))})
 		}
 		// (b) the property on the implementation's output
@@ -536,13 +686,25 @@ func c18EvalURIs(c *Ctx, st *h.Stage, uris [][]byte) error {
 			case c18Norm(or.mt) != c18Norm(gr.mt):
 				clause = "mediatype"
 			}
-			if clause == "" && len(cs.out) > len(cs.u) && c18ValidlyEncoded(gr) && (!cs.call.ok || len(cs.call.out) <= len(cs.call.in)) {
+			// the length clause presupposes a sub-minifier that does not make the payload more expensive to encode
+			// (`NonExpanding` of dataURI_length_partial: not longer, and not longer in percent-encoded form)
+			if clause == "" && len(cs.out) > len(cs.u) && c18ValidlyEncoded(gr) &&
+				(!cs.call.ok || (len(cs.call.out) <= len(cs.call.in) && c18PctLen(cs.call.out) <= c18PctLen(cs.call.in))) {
 				clause = "length"
 			}
 		}
+		// "using whichever of base64 and percent-encoding is valid and shorter": the output (also when it is the input
+		// itself) is not longer than either re-encoding of the expected payload under the output's own media type text
+		if or := c18GoRead(cs.out); clause == "" && or.ok && bytes.Equal(or.data, want) {
+			b64 := len("data:") + len(or.mt) + len(";base64,") + base64.StdEncoding.EncodedLen(len(want))
+			pct := len("data:") + len(or.mt) + len(",") + c18PctLen(want)
+			if len(cs.out) > b64 || len(cs.out) > pct {
+				clause = "shortest"
+			}
+		}
 		leanHolds := string(hrepGet(hrep[i])) == "1"
-		if leanHolds != (clause == "" || clause == "length") {
-			c.R.Add(h.Finding{Stage: st.Name, Kind: "diff", What: "Lean holdsDataURI differs from the independent Go evaluation (clause " + clause + ")", Input: h.Q(cs.u), Hex: h.Hex(cs.u), Config: cs.reg, Impl: h.Q(cs.out)})
+		if leanHolds != (clause == "" || clause == "length" || clause == "shortest") {
+			c18Diff(c, h.Finding{Stage: st.Name, Kind: "diff", What: "Lean holdsDataURI differs from the independent Go evaluation (clause " + clause + ")", Input: h.Q(cs.u), Hex: h.Hex(cs.u), Config: cs.reg, Impl: h.Q(cs.out)})
 		}
 		if clause == "" {
 			continue
@@ -560,6 +722,7 @@ func c18EvalURIs(c *Ctx, st *h.Stage, uris [][]byte) error {
 			"payload":    "output decodes to a different payload",
 			"mediatype":  "output has a different media type (beyond case, whitespace, default text/plain and charset=us-ascii)",
 			"length":     "output is longer than a validly encoded input",
+			"shortest":   "output is longer than the other encoding (base64 / percent) of the same payload",
 		}[clause]
 		if knownID != "" {
 			c.R.ExcludedKnown++
@@ -570,6 +733,16 @@ func c18EvalURIs(c *Ctx, st *h.Stage, uris [][]byte) error {
 			Impl: h.Q(cs.out), Model: fmt.Sprintf("input reads as mediatype %q payload %s; expected payload %s", gr.mt, h.Q(gr.data), h.Q(want))})
 	}
 	return nil
+}
+
+func c18PctLen(d []byte) int {
+	n := len(d)
+	for _, c := range d {
+		if parse.DataURIEncodingTable[c] {
+			n += 2
+		}
+	}
+	return n
 }
 
 func hrepGet(s string) []byte {
@@ -600,9 +773,9 @@ func c18EvalMediatypes(c *Ctx, st *h.Stage, inputs [][]byte) error {
 		}
 		mb, ok, msg := h.DecodeReply(rep[2*i])
 		if !ok {
-			c.R.Add(h.Finding{Stage: st.Name, Kind: "diff", What: "model.c18.mediatype: model error " + msg, Input: h.Q(b), Hex: h.Hex(b)})
+			c18Diff(c, h.Finding{Stage: st.Name, Kind: "diff", What: "model.c18.mediatype: model error " + msg, Input: h.Q(b), Hex: h.Hex(b)})
 		} else if !bytes.Equal(mb, outs[i]) {
-			c.R.Add(h.Finding{Stage: st.Name, Kind: "diff", What: "model.c18.mediatype", Input: h.Q(b), Hex: h.Hex(b), Impl: h.Q(outs[i]), Model: h.Q(mb)})
+			c18Diff(c, h.Finding{Stage: st.Name, Kind: "diff", What: "model.c18.mediatype", Input: h.Q(b), Hex: h.Hex(b), Impl: h.Q(outs[i]), Model: h.Q(mb)})
 		}
 		sb, ok, msg := h.DecodeReply(rep[2*i+1])
 		f := h.DecodeListReply(sb)
@@ -729,7 +902,7 @@ func c18Contracts(c *Ctx) error {
 		st.Tag(k.op)
 		got, ok, msg := h.DecodeReply(rep[i])
 		if !ok || !bytes.Equal(got, k.want) {
-			c.R.Add(h.Finding{Stage: st.Name, Kind: "diff", What: k.op + " " + msg, Input: h.Q(k.in), Hex: h.Hex(k.in), Impl: h.Q(k.want), Model: h.Q(got)})
+			c18Diff(c, h.Finding{Stage: st.Name, Kind: "diff", What: k.op + " " + msg, Input: h.Q(k.in), Hex: h.Hex(k.in), Impl: h.Q(k.want), Model: h.Q(got)})
 		}
 	}
 	return nil
@@ -742,7 +915,7 @@ func init() {
 		}
 
 		// ---- exhaustive over payload byte values ----
-		st := c.R.StartStage("bytes", "every payload byte value 0..255 x 6 payload shapes (b, bb, aba, 6 x b, 12 x b, b+'a'x5) x 4 input encodings (raw, percent upper, percent lower, base64) x 3 media types, each with 4 registries (none, identity, shrinking, failing); non-trivial = output differs from input or the sub-minifier ran")
+		st := c.R.StartStage("bytes", "every payload byte value 0..255 x 6 payload shapes (b, bb, aba, 6 x b, 12 x b, b+'a'x5) x 4 input encodings (raw, percent upper, percent lower, base64) x 3 media types, each with 5 registries (none, identity, shrinking, failing, nested); non-trivial = output differs from input or the sub-minifier ran")
 		var uris [][]byte
 		for b := 0; b < 256; b++ {
 			bb := byte(b)
@@ -761,8 +934,22 @@ func init() {
 		}
 		st.End()
 
+		// ---- data-URI-like text inside percent-encoded payloads (deterministic) ----
+		st = c.R.StartStage("lookalike", "percent-encoded URIs whose payload contains data-URI syntax (`;base64`, `data:`, `,`, `%25`, `;charset=`, a nested data URI inside svg/css text): 10 templates x 0..12 raw escapable bytes x 6 escapes x 3 positions x 3 media types + fully escaped forms, each with 5 registries (none, identity, shrinking, failing, nested = a stub that hands every nested data: URI to minify.DataURI as a sub-slice of its payload); the argument is retained before the call and the result at return; all three outcomes (original returned / percent / base64) are required to occur with and without escapes; non-trivial = output differs from input or the sub-minifier ran")
+		if err := c18EvalURIs(c, st, c18LookalikeSweep()); err != nil {
+			return err
+		}
+		st.Exhaustive = true
+		for _, want := range []string{"lookalike-payload/escapes=original-returned", "lookalike-payload/escapes=percent-out", "lookalike-payload/escapes=base64-out",
+			"lookalike-payload/noescape=original-returned", "lookalike-payload/noescape=percent-out", "nested-datauri-calls"} {
+			if st.Dist[want] == 0 {
+				c18Diff(c, h.Finding{Stage: st.Name, Kind: "diff", What: "generator gap: outcome never reached: " + want, Input: "(sweep)"})
+			}
+		}
+		st.End()
+
 		// ---- generated + corpus ----
-		st = c.R.StartStage("datauri", "generated data URIs (15+5 types incl. omitted/upper-case/whitespace, 0-3 parameters incl. default charset variants, base64 markers with whitespace, payloads over 7 alphabets incl. all 256 byte values, 5 percent-encoding modes, corrupt base64, malformed forms, token soup, 1 KB headers) + the suite's cases + tests/data-uri/corpus, each with 4 registries; non-trivial = output differs from input or the sub-minifier ran")
+		st = c.R.StartStage("datauri", "generated data URIs (15+5 types incl. omitted/upper-case/whitespace, 0-3 parameters incl. default charset variants, base64 markers with whitespace, payloads over 7 alphabets incl. all 256 byte values, 5 percent-encoding modes, corrupt base64, malformed forms, token soup, 1 KB headers, 12% percent-encoded URIs made of data-URI-like text with a random share of raw escapable bytes) + the suite's cases + tests/data-uri/corpus, each with 5 registries; non-trivial = output differs from input or the sub-minifier ran")
 		uris = nil
 		for _, s := range c18Fixed {
 			uris = append(uris, []byte(s))
@@ -809,7 +996,7 @@ func init() {
 				if k.Status != "open" {
 					continue
 				}
-				cs := c18RunOne(in, "none")
+				cs := c18RunOne(in, "none", 0)
 				gr, or := c18GoRead(in), c18GoRead(cs.out)
 				fails := cs.crash != "" || (gr.ok && !bytes.Equal(cs.out, in) && (!or.ok || !bytes.Equal(or.data, gr.data) || c18Norm(or.mt) != c18Norm(gr.mt)))
 				c.R.AddKnown(k.ID, fails, k.What, h.Q(cs.out))
